@@ -201,3 +201,48 @@ Proof.
 Qed.
 Example ex_dict_value : conforms ex_db (PDict [(S_ 113, PFlt 96); (S_ 120, PInt 2)]).
 Proof. vm_compute. reflexivity. Qed.
+
+(* ------------------------------------------------------------------------------------------ *)
+(** * The decidable hypotheses checked by the harness imply the ones the theorems use *)
+
+Lemma pv_eqb_eq : forall a b, pv_eqb a b = true -> a = b.
+Proof.
+  induction a using pv_ind'; intros y E; destruct y; simpl in E; try discriminate; auto.
+  - apply Bool.eqb_prop in E. congruence.
+  - apply Z.eqb_eq in E. congruence.
+  - apply Z.eqb_eq in E. congruence.
+  - apply str_eqb_eq in E. congruence.
+  - f_equal. revert l0 E. induction H; intros [|y ys] E; try discriminate; auto.
+    apply andb_true_iff in E as [E1 E2]. f_equal; auto.
+  - f_equal. revert l0 E. induction H; intros [|y ys] E; try discriminate; auto.
+    apply andb_true_iff in E as [E1 E2]. f_equal; auto.
+  - f_equal. revert kvs0 E. induction H as [|[k x] r Hx Hr IH]; intros [|[k' y] ys] E; try discriminate; auto.
+    apply andb_true_iff in E as [E1 E3]. apply andb_true_iff in E1 as [E1 E2].
+    apply str_eqb_eq in E1. subst. simpl in Hx. rewrite (Hx _ E2). f_equal. auto.
+  - apply andb_true_iff in E as [E1 E2]. apply str_eqb_eq in E1. apply N.eqb_eq in E2. congruence.
+Qed.
+
+Lemma frozen_value_okb_ok : forall s, frozen_value_okb s = true -> frozen_value_ok s.
+Proof.
+  unfold frozen_value_okb, frozen_value_ok, conforms. intros s H F T. rewrite F, T in H. simpl in H.
+  destruct (apply false (unfreeze s) (dflt (mods_of s))) eqn:A; [|discriminate].
+  apply pv_eqb_eq in H. congruence.
+Qed.
+
+Theorem wfb_wf : forall s, wfb s = true -> wf s.
+Proof.
+  induction s using spec_ind'; intros W; simpl in W; apply andb_true_iff in W as [W1 W2];
+    (split; [apply frozen_value_okb_ok; exact W1|]); auto.
+  - rewrite forallb_forall in W2. rewrite Forall_forall in H.
+    clear W1. induction es; simpl; auto. split.
+    + apply H. left; reflexivity. apply W2. left; reflexivity.
+    + apply IHes; intros; [apply H|apply W2]; auto; right; auto.
+  - rewrite forallb_forall in W2. rewrite Forall_forall in H.
+    clear W1. induction fs; simpl; auto. split.
+    + apply H. left; reflexivity. apply W2. left; reflexivity.
+    + apply IHfs; intros; [apply H|apply W2]; auto; right; auto.
+  - rewrite forallb_forall in W2. rewrite Forall_forall in H.
+    clear W1. induction cs; simpl; auto. split.
+    + apply H. left; reflexivity. apply W2. left; reflexivity.
+    + apply IHcs; intros; [apply H|apply W2]; auto; right; auto.
+Qed.
